@@ -91,6 +91,11 @@ SPECS = {
             ("T_bottom_BC", "T_bottom_BC", 1, "cool_T_bottom_BC", "ghost value below node 0 (cooling)"),
             ("q_e", "q_e", 1, "q_e", "q_e = -N_w dHe inside the window"),
             ("solid_q_e", "q_e", 4, "solid_q_e", "q_e = -N_w dHe inside the window (solidification)"),
+            ("cool_q_e_if", "q_e", 1, "cool_q_e_if", "cooling loop: the whole statement `if window: N_w = vapour_flux(...); q_e = -N_w dHe else: q_e = 0` "
+             "with the call arguments and p_vap = vapour_pressure_liquid(T_l)",
+             dict(kind="ifelse", inline=["N_w", "p_vap", "T_l", "T_v"])),
+            ("solid_q_e_if", "q_e", 4, "solid_q_e_if", "solidification loop: the same statement group with t_nuc + dt i and vapour_pressure_solid",
+             dict(kind="ifelse", inline=["N_w", "p_vap", "T_l", "T_v"])),
             ("T_top_BC", "T_top_BC", 1, "cool_T_top_BC", "ghost value above the top node (cooling)"),
             ("T_bottom", "T_bottom", 1, "cool_T_bottom", "cooling stencil, bottom node"),
             ("T_center", "T_center", 1, "cool_T_center", "cooling stencil, interior nodes"),
@@ -156,6 +161,10 @@ SPECS = {
             ("solid_q_overall", "q_overall", 2, "solid_step", "shelf heat flux (solidification)"),
             ("solid_T_bottom", "T_bottom", 2, "solid_step", "ghost row below the bottom (solidification)"),
             ("solid_q_e", "q_e", 4, "solid_q_e", "q_e = -N_w dHe inside the window (solidification)"),
+            ("cool_q_e_if", "q_e", 1, "cool_q_e_if", "2D cooling loop: the whole if-window/else-0 statement with the call arguments and the liquid curve",
+             dict(kind="ifelse", inline=["N_w", "p_vap", "T_l", "T_v"])),
+            ("solid_q_e_if", "q_e", 4, "solid_q_e_if", "2D solidification loop: the same statement group with t_nuc + dt i and the ice curve",
+             dict(kind="ifelse", inline=["N_w", "p_vap", "T_l", "T_v"])),
             ("solid_T_top", "T_top", 2, "solid_step", "ghost row above the top (solidification)"),
             ("solid_q_jacket", "q_jacket", 3, "solid_q_jacket", "jacket heat flux (solidification)"),
             ("solid_T_edge", "T_edge", 2, "solid_step", "ghost column beyond the wall (solidification, spacing dr)"),
@@ -237,7 +246,7 @@ def regenerate(which: str) -> bool:
                                       translate.GEN_DIR / sp["file"])
         return translate._write(translate.GEN_DIR / sp["file"], text)
     src = translate.source(sp["source"])
-    specs = [F(name, target, occ) for (name, target, occ, _t, _c) in sp["formulas"]]
+    specs = [F(r[0], r[1], r[2], **(r[5] if len(r) > 5 else {})) for r in sp["formulas"]]
     text = translate._parse_guard(translate.translate_formulas, src, sp["source"], sp["func"], specs,
                                   sp["namespace"], sp["file"], translate.GEN_DIR / sp["file"])
     return translate._write(translate.GEN_DIR / sp["file"], text)
@@ -246,7 +255,7 @@ def regenerate(which: str) -> bool:
 def theorems(which: str):
     sp = SPECS[which]
     by_thm = {}
-    rows = sp["formulas"] if "formulas" in sp else [
+    rows = [r[:5] for r in sp["formulas"]] if "formulas" in sp else [
         (d["name"], d["target"], d.get("occ", 1), d["thm"], d["clause"]) for (_f, _fn, ds) in sp["groups"] for d in ds]
     for (name, _target, _occ, thm, clause) in rows:
         by_thm.setdefault(thm, []).append(f"`{name}` ({clause})")
